@@ -1,5 +1,5 @@
 CFG = {
-    "modules": ["Parsley.Props.C15", "Parsley.Props.C15Reparse"],
+    "modules": ["Parsley.Props.C15", "Parsley.Props.C15Reparse", "Parsley.Props.C15Bin"],
     "theorems": ["Parsley.C15.loc_faithful_tokens", "Parsley.C15.wsEOLLoop_spec", "Parsley.C15.litLoop_bound",
                  # the RE-PARSE clause (Props/C15Reparse.lean, Lemmas/Trunc.lean, Lemmas/TruncObj.lean)
                  "Parsley.C15.reparses_of", "Parsley.C15.reparse_tokens", "Parsley.C15.wsNoEOL_reparses",
@@ -8,26 +8,58 @@ CFG = {
                  "Parsley.Trunc.wsNoEOL_truncC", "Parsley.Trunc.wsEOL_trunc", "Parsley.Trunc.integerP_trunc",
                  "Parsley.Trunc.realP_trunc", "Parsley.Trunc.rawLitString_trunc", "Parsley.Trunc.streamContentP_trunc",
                  "Parsley.Trunc.numberOrRef_trunc", "Parsley.Trunc.arrayLoop_trunc", "Parsley.Trunc.dictLoop_trunc",
-                 "Parsley.Trunc.parseObjB_trunc", "Parsley.C15.parseObjB_restart"],
-    "partial": {"(reparse)": "the re-parse clause is PROVED, for every buffer and cursor, for every token parser of pdf_prim.rs "
-                "(WhitespaceNoEOL both flags incl. the '\\r' give-back, WhitespaceEOL both flags, Comment, Boolean, Null, IntegerP, RealP, "
-                "HexString, RawLiteralString, NameP, OperatorP), for the tag matcher, for StreamContentP modulo its absolute `start` field "
-                "(content and size equal, start re-based to the span: streamContentP_reparses + streamContentP_start_in_span) and for the "
-                "object parser parse_pdf_obj at every depth bound (scalars, the number/reference look-ahead, arrays, dictionaries: "
-                "parseObj_reparses; the span starts after the leading whitespace). Not covered by a theorem (oracle only): the binary "
-                "integer / byte-vector parsers of prim_binary.rs (fixed-width, no look-ahead) and the four combinators; scanners are exempt."},
+                 "Parsley.Trunc.parseObjB_trunc", "Parsley.C15.parseObjB_restart",
+                 # binary parsers (Props/C15Bin.lean, Lemmas/ReparseBin.lean; from C19's Sat contract)
+                 "Parsley.C15.bin_windows", "Parsley.C15.bin_span_is_consumed", "Parsley.C15.bin_value_determined",
+                 "Parsley.C15.bin_failure_keeps_cursor", "Parsley.C15.bin_reparses", "Parsley.C15.bin_loc_faithful",
+                 "Parsley.C15.bin_local",
+                 # the four combinators over arbitrary components (Model/CombP.lean, Lemmas/ReparseComb.lean)
+                 "Parsley.C15.seq_reparses", "Parsley.C15.alt_reparses", "Parsley.C15.star_reparses",
+                 "Parsley.C15.not_reparses", "Parsley.C15.comb_loc_faithful", "Parsley.C15.comb_failure_restores_cursor",
+                 "Parsley.C15.seq_faithful", "Parsley.C15.seq_local", "Parsley.C15.alt_faithful", "Parsley.C15.alt_local",
+                 "Parsley.C15.star_faithful", "Parsley.C15.star_local", "Parsley.C15.not_faithful",
+                 "Parsley.C15.starP_iter", "Parsley.C15.star_never_fails", "Parsley.C15.Faithful.reparses",
+                 "Parsley.C15.seq_failTrunc", "Parsley.C15.alt_failTrunc", "Parsley.C15.seq_consumes",
+                 "Parsley.C15.alt_consumes", "Parsley.C15.failEOB_of_consumes",
+                 # instances: AsciiChar, the composites built in the crate, mixed composites
+                 "Parsley.C15.chrP_local", "Parsley.C15.asciiChar_reparses", "Parsley.C15.crate_composites_reparse",
+                 "Parsley.C15.mixed_composites_reparse",
+                 # the side conditions are necessary (witnesses)
+                 "Parsley.C15.reparse_fails_for_positive_lookahead", "Parsley.C15.alt_reparse_needs_failTrunc"],
+    "partial": {"(reparse, look-ahead composites)": "the location, cursor-restore and re-parse clauses are PROVED, for every buffer and cursor, "
+                "for every token parser of pdf_prim.rs, the tag matcher, StreamContentP (modulo its absolute `start` field), parse_pdf_obj at "
+                "every depth, AsciiChar, every binary parser of prim_binary.rs (all widths / byte orders / signedness, byte vector: bin_reparses, "
+                "bin_value_determined, bin_failure_keeps_cursor) and, as contract-preservation theorems over ARBITRARY component parsers, for the "
+                "four combinators (seq_reparses, alt_reparses, star_reparses, not_reparses; failure clause for arbitrary components: "
+                "comb_failure_restores_cursor), instantiated on all composites built in the crate (crate_composites_reparse). "
+                "What is NOT provable because it is false: the re-parse clause for combinators WITHOUT the side conditions "
+                "(Star/Not body fails at end of buffer, e.g. because it consumes; failures of Alternate's first branch survive truncation; first "
+                "component of Sequence does not look beyond its span): positive look-ahead Not(Not(p)) reports an empty span whose re-parse fails "
+                "(reparse_fails_for_positive_lookahead), an ordered choice whose first branch looks ahead changes branch on the span alone "
+                "(alt_reparse_needs_failTrunc). No parser of the crate is such a composite (the combinators are only used in their own tests). "
+                "Scanners are exempt from the re-parse clause."},
     "n": {"quick": 4000, "thorough": 200000},
     "exhaustive": {"quick": True, "thorough": True},
     "rule": "exhaustive buffers of length <= 2 (quick) / <= 3 (thorough) over a 30-symbol alphabet (whitespace, delimiters, digits, sign, "
             "escapes, keyword letters, high bytes) x every cursor position x 26 parsers (whitespace, comment, keywords, numbers, strings, "
             "names, operators, stream data, object parser at two depth bounds, binary integers, byte vector, tag matcher, scanners); "
-            "sub-sampled next length; random concatenations of ~50 PDF tokens with stray bytes; corpus of past defects. "
+            "sub-sampled next length; random concatenations of ~50 PDF tokens with stray bytes; corpus of past defects; "
+            "AsciiChar + 15 combinator composites (the 9 of prim_combinators.rs tests, Star(Sequence(u16,bytevec)), Sequence(IntegerP,WhitespaceNoEOL), "
+            "2 look-ahead ones exempt from the re-parse clause only) exhaustively on buffers of length <= 4 (quick) / <= 5 (thorough) over "
+            "{A,B,C,0x80,1,blank} x every cursor, whole buffer and restricted view; all 14 binary integer parsers + byte vectors on random "
+            "buffers of 0..9 bytes x every cursor, whole buffer and restricted view (values also cross-checked against the byte-order spec by C19). "
             "non-trivial = buffer of >= 2 bytes or non-zero cursor (counted distinct by hash of the case)",
     "trusted_base": COMMON_TB + [
         "modelled, not verified: ParseBuffer primitives as list functions on a whole buffer (views: C17); std::str::from_utf8 as validUtf8",
-        "the four combinators' failure-restores-cursor clause is proved in C18 (Parsley.C18.*), binary integers in C19"],
+        "the binary theorems are derived from C19's contract (Parsley.C19.uint_parse_spec / int_parse_spec / bytevec_spec); "
+        "the generic combinator model Model/CombP.lean is tied to the code by this run (cmb:* cases); C18 ties the closed-expression model "
+        "Model/Comb.lean to the textbook PEG semantics"],
     "assumptions": ["StreamContentT.start is location metadata: the re-parse clause compares it relative to the span start",
-                    "scanners (value = skip count, span = skipped text) are exempt from the re-parse clause, not from the others"],
+                    "scanners (value = skip count, span = skipped text) are exempt from the re-parse clause, not from the others",
+                    "nested located values inside a combinator value are compared re-based to the span start (Sh.down); Rust's PartialEq on "
+                    "LocatedVal ignores locations altogether, so this is stronger than `equal value`",
+                    "look-ahead composites violating the side conditions of the combinator theorems are exempt from the re-parse clause "
+                    "(it is false for them: witness theorems); the crate builds none outside the combinator tests"],
 }
 LEVEL = {
     "design_ref": "DESIGN.md 3.C15",
@@ -35,6 +67,10 @@ LEVEL = {
     "text": "Machine-checked proof, for every buffer and cursor, that each modelled token parser on success reports start = cursor-before, "
             "cursor-after = end <= size, and on failure leaves the cursor unchanged; and that parsing the reported span alone (bytes before it dropped: prefix "
             "independence; bytes after it cut: suffix truncation, the look-ahead sees the same at end-of-buffer) yields an equal value and consumes the span, "
-            "for every token parser, the tag matcher, StreamContentP (modulo its absolute start offset) and the object parser parse_pdf_obj at every depth; "
+            "for every token parser, the tag matcher, StreamContentP (modulo its absolute start offset), the object parser parse_pdf_obj at every depth, "
+            "AsciiChar, and every binary integer / byte-vector parser (value a function of the spanned bytes alone); for the four combinators the same "
+            "clauses are proved as contract-preservation theorems over arbitrary component parsers (Sequence: first component local; Alternate: first-branch "
+            "failures truncation-stable; Star/Not: body fails at end of buffer), the failure clause for arbitrary components, instantiated on every composite "
+            "the crate builds; witnesses show the side conditions are necessary (positive look-ahead does not re-parse); "
             "the re-parse clause is also checked by the oracle on the real code for all parsers. Model tied to the Rust parsers by an exhaustive small-buffer run.",
 }
